@@ -167,6 +167,11 @@ func (ck *checker) bulk(round, perKind int) {
 		for i := 0; i < g.n; i++ {
 			i := i
 			mk := func() input { return g.f(rand.New(rand.NewPCG(stream, uint64(i)))) }
+			if g.name == "invariant" && i%3 == 2 {
+				mk = func() input {
+					return genInvTwin(rand.New(rand.NewPCG(stream, uint64(i-1))), rand.New(rand.NewPCG(stream, uint64(i))))
+				}
+			}
 			in := mk()
 			ck.arena(in.kind()).add("bulk:"+g.name, in, mk)
 			if i%50_000 == 0 {
